@@ -20,7 +20,7 @@
    unpartitioned dataset); a dataset emptied by remove_row_groups keeps its partitioning (fix 05c32a7).            *)
 From Coq Require Import NArith ZArith Arith List Bool.
 From Pq Require Import Base.Bytes Dataset.FS Dataset.FsPaths Dataset.Edit
-  Proofs.EditProofs Proofs.EditRename Proofs.EditHistory.
+  Proofs.EditProofs Proofs.EditRename Proofs.EditHistory Dataset.DsHandle Proofs.DsHandleProofs.
 Import ListNotations.
 
 (* one step: the invariant is kept ... *)
@@ -107,3 +107,47 @@ Example C09_empty_then_append :
   /\ read (run sort_pnames_fixed ops empty) = [(k0, Some [1]); (k1, Some [2])]%N
   /\ map snd (st_dir (run sort_pnames_fixed ops empty)) = [[7; 2]; [7; 1]]%N.
 Proof. vm_compute. repeat split. Qed.
+
+
+(* ======================= wave 3: operations through ONE long-lived handle (Dataset/DsHandle.v) =======================
+   A handle computes from ITS OWN copy of the summary.  For EVERY operation list: the history run through one handle
+   opened on s equals the history run with a fresh handle per operation (the disk-level model of C09_history), and the
+   handle ends up equal to a fresh open of the result - so C09_history / C09_refines hold for handle-level histories. *)
+Theorem C09_handle_refines : forall ops s,
+  run_h (step_h sort_pnames_fixed) ops (s, open_h s)
+  = (run sort_pnames_fixed ops s, open_h (run sort_pnames_fixed ops s)).
+Proof. exact (handle_refines sort_pnames_fixed). Qed.
+Print Assumptions C09_handle_refines.
+
+(* a FAILED write_row_groups whose handle is put back (repo fix 8453df6): summary, num_rows and the handle are as before *)
+Theorem C09_failed_op_restored : forall s done,
+  let sh' := fail_write false (s, open_h s) done in
+  coherent sh' /\ st_sum (fst sh') = st_sum s /\ st_num (fst sh') = st_num s.
+Proof. exact fail_restored_coherent. Qed.
+Print Assumptions C09_failed_op_restored.
+
+(* faulty rule 1 (class of seed C07-3): the operation works on a COPY of the handle's metadata - the second append through the
+   same handle drops the first one's rows (metadata and directory stay mutually consistent: only the content shows it) *)
+Theorem C09_stale_handle_refuted :
+  abs (fst (run_h (step_h_stale sort_pnames_fixed) w_ops (w_s0, open_h w_s0))) <> abs (run sort_pnames_fixed w_ops w_s0)
+  /\ check_inv (fst (run_h (step_h_stale sort_pnames_fixed) w_ops (w_s0, open_h w_s0))) = true
+  /\ map snd (abs (fst (run_h (step_h_stale sort_pnames_fixed) w_ops (w_s0, open_h w_s0)))) = [[0; 1; 2]; [20]]%N.
+Proof. exact stale_handle_refuted. Qed.
+Print Assumptions C09_stale_handle_refuted.
+
+(* faulty rule 2 (pinned behaviour before fix 8453df6): the row groups a FAILED write_row_groups had finished stay in the
+   handle - the dataset reads as before after the failure, and the next successful append publishes the failed rows *)
+Theorem C09_failed_op_kept_refuted :
+  let sh1 := fail_write true (w_s0, open_h w_s0) [[(w_dir, [10; 11]%N)]] in
+  let sh2 := run_h (step_h sort_pnames_fixed) [OWriteRgs [[(w_dir, [20]%N)]] SKNone false] sh1 in
+  abs (fst sh1) = abs w_s0
+  /\ map snd (abs (fst sh2)) = [[0; 1; 2]; [10; 11]; [20]]%N
+  /\ map snd (abs (run sort_pnames_fixed [OWriteRgs [[(w_dir, [20]%N)]] SKNone false] w_s0)) = [[0; 1; 2]; [20]]%N.
+Proof. exact failed_op_kept_refuted. Qed.
+Print Assumptions C09_failed_op_kept_refuted.
+
+Example C09_failed_op_restored_nonvacuous :
+  let sh1 := fail_write false (w_s0, open_h w_s0) [[(w_dir, [10; 11]%N)]] in
+  let sh2 := run_h (step_h sort_pnames_fixed) [OWriteRgs [[(w_dir, [20]%N)]] SKNone false] sh1 in
+  map snd (abs (fst sh2)) = [[0; 1; 2]; [20]]%N.
+Proof. exact failed_op_restored_ok. Qed.
